@@ -131,6 +131,11 @@ def matches_known(entry, prop, scn, viol):
         return False
     facts = prop.facts(scn, viol)
     for k, want in entry.get("when", {}).items():
+        if k.endswith("__le") or k.endswith("__ge"):
+            got = facts.get(k[:-4])
+            if got is None or (k.endswith("__le") and not got <= want) or (k.endswith("__ge") and not got >= want):
+                return False
+            continue
         got = facts.get(k)
         if isinstance(want, list):
             if got not in want:
